@@ -42,11 +42,13 @@ CLAIMED = {
  'C04': dict(
     text='Same model and trace-refinement tie as C03, extended with parents and child chains: do_attach mirrors the count<100 / foundOther decision and the '
          'decision itself is compared with the implementation\'s; PUT_COPY / TEMP_COPY / freeSlot / detach mirror Slot::child, sibling, removeChild.  '
-         'Proved so far: attachment operations never disturb the stream invariant.  The forest clauses (acyclic parents, child chains consistent, single '
-         'base chain) are evaluated on the API output of every case and through snapshot agreement, including adversarial mutually-attaching programs.',
-    note='PARTIAL: acyclicity / child-chain consistency not yet proved in Coq (argument: foundOther + PUT_COPY precondition).  One genuine defect is '
+         'Proved: the parent relation never closes a cycle under ANY sequence of appends, insertions, deletions, associations, reversals, associateChars, '
+         'attachments (accepted, refused, re-attachments, ancestor-to-descendant attempts) and detachments - setAttr(gr_slatAttTo) refuses exactly the cycle-closing attachments; attachment operations '
+         'never disturb the stream invariant.  The remaining forest clauses (child chains consistent, single base chain) are evaluated on the API output of every case and through snapshot '
+         'agreement, including adversarial mutually-attaching programs and compiled positioning passes.',
+    note='PARTIAL: the copying operations (PUT_COPY, TEMP_COPY, freeSlot) are outside the acyclicity theorem (they need child-chain consistency, not proved).  One genuine defect is '
          'recorded as a known finding (ghost slot after DELETE of a temp-copied attached slot).',
-    technique='Coq proof (partial) over list-level model + trace-refinement correspondence via source hooks + forest oracle on API output',
+    technique='Coq proof (acyclicity invariant over arbitrary non-copying op sequences; cycle refusal of attach) over list-level model + trace-refinement correspondence via source hooks + forest oracle on API output',
     design='6/C04'),
  'C05': dict(
     text='Theorem: for a segment of n > 0 characters, after ANY sequence of primitive operations every slot\'s before / after / original lie in [0, n) '
